@@ -78,8 +78,22 @@ def assume(cond):
     c.pc.append(t)
 
 
+class spec_side:
+    """context manager: expressions built inside belong to the SPECIFICATION; their definedness is not an obligation of the code"""
+
+    def __enter__(self):
+        c = cur()
+        c.__dict__["no_side"] = c.__dict__.get("no_side", 0) + 1
+
+    def __exit__(self, *a):
+        cur().__dict__["no_side"] -= 1
+        return False
+
+
 def side_obligation(name, goal):
     c = cur()
+    if c.__dict__.get("no_side", 0) and name.startswith("def:"):
+        return
     g = goal.t if isinstance(goal, SymBool) else (z3.BoolVal(bool(goal)) if isinstance(goal, bool) else goal)
     prem = [b.range_cond() for b in c.binders] + list(c.__dict__.get("guards", []))
     if prem:
@@ -118,6 +132,8 @@ def _lift(x):
     if hasattr(x, "_cmp_real"):
         return x._cmp_real().t
     if hasattr(x, "value") and hasattr(x, "terms"):
+        if x.terms:
+            raise Unsupported("a linear form is not a scalar")      # lets the reflected operator of LF take over
         return x.value()._cmp_real().t
     try:
         import numpy as _np
